@@ -68,6 +68,7 @@ var runners = map[string]func(*H){
 	"C05": runComputeProps("C05"),
 	"C18": runComputeProps("C18"),
 	"C03": runOapiCompute("C03"),
+	"C12": runC12,
 	"C13": runC13,
 	"C19": runC19,
 	"C20": runC20,
